@@ -1585,3 +1585,97 @@ def chan_select(ex, st, fr, ins):
 
 
 BASE.update({'chan:select': chan_select})
+
+
+# ------------------------------------------------------------------------------------------ C13: shared-state footprint of one invocation
+def i_begin_invocation(ex, st, args, ctx):
+    st.epoch = st.nobj + 1
+    st.events.append(('invocation-begin',))
+    return None
+
+
+INTRINSICS.update({'verifBeginInvocation': i_begin_invocation})
+_old_lock, _old_unlock, _old_put, _old_get = mutex_Lock, mutex_Unlock, sync_pool_put, sync_pool_get
+
+
+def mutex_Lock2(ex, st, args, ctx):
+    st.events.append(('lock', ('mutex', args[0].obj, args[0].path), ctx['pos']))
+    return _old_lock(ex, st, args, ctx)
+
+
+def mutex_Unlock2(ex, st, args, ctx):
+    st.events.append(('unlock', ('mutex', args[0].obj, args[0].path), ctx['pos']))
+    return _old_unlock(ex, st, args, ctx)
+
+
+def reachable_objs(ex, st, v, acc):
+    if isinstance(v, Ptr):
+        if v.obj in acc or v.obj not in st.heap:
+            return
+        acc.add(v.obj)
+        reachable_objs(ex, st, st.heap[v.obj], acc)
+    elif isinstance(v, Slice):
+        o = v.obj[1].obj if isinstance(v.obj, tuple) else v.obj
+        if o is not None and o not in acc and o in st.heap:
+            acc.add(o)
+            reachable_objs(ex, st, st.heap[o], acc)
+    elif isinstance(v, Struct):
+        for f in v.f:
+            reachable_objs(ex, st, f, acc)
+    elif isinstance(v, Array):
+        for f in v.e[:64]:
+            reachable_objs(ex, st, f, acc)
+    elif isinstance(v, Iface):
+        reachable_objs(ex, st, v.v, acc)
+
+
+def sync_pool_put2(ex, st, args, ctx):
+    used('sync.Pool.Put: the object (and what it references) becomes visible to every other goroutine from that instant')
+    acc = set()
+    reachable_objs(ex, st, args[1], acc)
+    for o in acc:
+        st.obj_epoch[o] = -2          # shared from now on: later accesses by this invocation race with whoever Gets it
+    st.events.append(('pool_put', tuple(sorted(acc)), ctx['pos']))
+    return _old_put(ex, st, args, ctx)
+
+
+BASE.update({'(*sync.Mutex).Lock': mutex_Lock2, '(*sync.Mutex).Unlock': mutex_Unlock2, '(*sync.Pool).Put': sync_pool_put2})
+
+
+def touch(ex, st, v, kind, pos):
+    """record an access by a stub to the backing object of a slice / pointer (for the shared-state footprint)"""
+    o = None
+    if isinstance(v, Slice) and v.obj is not None:
+        o = v.obj[1].obj if isinstance(v.obj, tuple) else v.obj
+    elif isinstance(v, Ptr):
+        o = v.obj
+    if o is not None and st.obj_epoch.get(o, 0) < st.epoch:
+        st.events.append(('shared_write' if kind == 'w' else 'shared_read', o, (), pos))
+
+
+def buffer_ReadFrom(ex, st, args, ctx):
+    used('(*bytes.Buffer).ReadFrom: appends an arbitrary byte string read from the reader, or fails')
+    touch(ex, st, args[0], 'w', ctx['pos'])
+    c = z3.Bool(ex.newsym('readfrom_ok'))
+    o = st.alloc(Opaque('bodybytes'))
+    st.obj_epoch[o] = st.obj_epoch.get(args[0].obj, st.epoch)      # the bytes live in the buffer's storage
+
+    def ok(s2):
+        ex.store(s2, Ptr(args[0].obj, args[0].path + (0,)), Slice(o, 0, z3.BitVec(ex.newsym('bodylen'), 64), 0))
+        return (z3.BitVec(ex.newsym('n'), 64), NIL)
+
+    def bad(s2):
+        s2.events.append(('tag', 'readall_error'))
+        return (bvval(0, 64), Iface(-1, Opaque('error', msg=S('read error'), origin=ctx['pos'])))
+    return Forks([(c, ok, None), (z3.Not(c), bad, None)])
+
+
+_json_unmarshal0 = json_Unmarshal
+
+
+def json_Unmarshal2(ex, st, args, ctx):
+    touch(ex, st, args[0], 'r', ctx['pos'])
+    return _json_unmarshal0(ex, st, args, ctx)
+
+
+BASE.update({'(*bytes.Buffer).ReadFrom': buffer_ReadFrom, 'encoding/json.Unmarshal': json_Unmarshal2})
